@@ -355,7 +355,7 @@ class dictable(Dict):
 
     Full details are below.
     """
-    def __init__(self, data = None, columns = None, **kwargs):
+    def __init__(self, /, data = None, columns = None, **kwargs):
         kwargs = {key :_value(value) for key, value in kwargs.items()}
         data_kwargs = {key: _value(value) for key, value in _data_columns_as_dict(data, columns).items()}
         kwargs.update(data_kwargs)
@@ -494,7 +494,7 @@ class dictable(Dict):
         return [row.apply(tf[bool(row[condition])], **default_params) for row in self]
         
     
-    def inc(self, *functions, **filters):
+    def inc(self, /, *functions, **filters):
         """
         performs a filter on what rows to include
 
@@ -558,7 +558,7 @@ class dictable(Dict):
             return type(self)([], self.keys())
         return res                
 
-    def one_or_none(self, *functions, exc = None, find = None, **filters):
+    def one_or_none(self, /, *functions, exc = None, find = None, **filters):
         """
         implements a sql-alchemy like one_or_none
         
@@ -591,7 +591,7 @@ class dictable(Dict):
         return res
 
     
-    def exc(self, *functions, **filters):
+    def exc(self, /, *functions, **filters):
         """
         performs a filter on what rows to exclude
 
@@ -644,7 +644,7 @@ class dictable(Dict):
         return res                
 
 
-    def if_none(self, none = None, **kwargs):
+    def if_none(self, /, none = None, **kwargs):
         """
         runs a column calculation if a column is not there, or if the existing value is considered missing.
         
